@@ -244,6 +244,34 @@ def boundary_counters(base_ids, delta, offsets, bump):
     return states
 
 
+def gap_states(base_ids, delta, uses, max_per_prefix):
+    """Leading-digit classes that matter for THIS module: for a prefix p the module mints k names for, and the earlier names
+    `uses[p]` its namespace mentions, the block of new names can sit (lexicographically) before / between / after those names.
+    One counter value per distinct position of the block, found by direct string comparison of candidate values; other
+    prefixes are left alone."""
+    out = []
+    for p, k in delta.items():
+        used = sorted({str(a) for a in uses.get(p, [])})
+        if not used or k <= 0:
+            continue
+        cur = base_ids.get(p, 0)
+        cands = []
+        for a in used:
+            for e in (1, 2, 3, 4):
+                cands += [int(a) * 10**e, int(a) * 10**e - k - 1, (int(a) + 1) * 10**e - k - 1]
+        cands += [10**e for e in (3, 4, 5)] + [9 * 10**e for e in (2, 3, 4)] + [5 * 10**e for e in (2, 3)]
+        seen_sig = {}
+        for n in sorted({c for c in cands if c >= cur}):
+            block = [str(n + j) for j in range(1, k + 1)]
+            pos = {sum(1 for a in used if a < b) for b in block}
+            if len(pos) != 1:
+                continue            # the block straddles one of the used names: that is what the boundary states are for
+            seen_sig.setdefault(pos.pop(), n)
+        for sig, n in sorted(seen_sig.items())[:max_per_prefix]:
+            out.append({p: n})
+    return out
+
+
 def describe_history(h):
     return {k: (v if k != "modules" else f"{len(v)} modules, first {v[:3]}") for k, v in h.items()}
 
@@ -345,7 +373,15 @@ def run(ctx):
     ctx.coverage["module_observations_compared_whole_catalogue"] = compared
 
     # ---- (b) every selected module alone, counters at the representative states ----
-    chosen = modules if not ctx.quick else sorted(set(rng.sample(modules, max(1, len(modules) // 10))) | (set(CORPUS) & set(modules)))
+    # quick: a seeded 10 % of the modules get the full treatment; every module that (by the reference run) mints >= 2 functions or
+    # quantities, or any name with a rare prefix, additionally gets the boundary sweep of those prefixes (cheap, and exactly the modules
+    # in which two back-to-back FUN/QTY names can straddle a power of ten)
+    def multi(o):
+        d = o.get("ids", {})
+        return d.get("FUN", 0) >= 2 or d.get("QTY", 0) >= 2 or any(p not in ("SYM", "FUN", "QTY") for p in d)
+    full = set(modules) if not ctx.quick else set(rng.sample(modules, max(1, len(modules) // 10))) | (set(CORPUS) & set(modules))
+    light_only = set() if not ctx.quick else {n for n, o in refm.items() if o.get("import") == "ok" and multi(o)} - full
+    chosen = sorted(full | light_only)
     slow = {n for n, o in refm.items() if o.get("import_s", 0) > 2.5}
     base_tasks = [[m, {}] for m in chosen]
     shards = [base_tasks[i::NPROC] for i in range(NPROC)]
@@ -364,9 +400,11 @@ def run(ctx):
                 diffs.append(({"tag": "alone", "kind": "module imported alone", "hashseed": 0}, name, *d, o))
     tasks = []
     cap = ctx.pick(10, 32)
-    n_lead = ctx.pick(3, 6)
+    n_lead = ctx.pick(2, 3)
+    n_gap = ctx.pick(6, 12)
     n_states = 0
     n_lead_states = 0
+    n_gap_states = 0
     for name in chosen:
         o = alone.get(name)
         if not o or o.get("import") != "ok":
@@ -374,19 +412,36 @@ def run(ctx):
         delta = {p: int(v) for p, v in o.get("ids", {}).items() if v}
         if not delta:
             continue
+        light = name in light_only
+        if light:
+            # selected only because it mints >= 2 functions / quantities or uses a rare prefix: sweep just those prefixes
+            delta = {p: k for p, k in delta.items() if p != "SYM"}
+            if not delta:
+                continue
         kmax = max(delta.values())
         offs = list(range(0, kmax + 1))
         lim = 3 if name in slow else (64 if name in CORPUS else cap)
         if len(offs) > lim:
-            keep = {0, 1, kmax}
-            keep |= set(rng.sample(offs, lim - 3)) if lim > 3 else set()
+            # every offset of every prefix with few names (each consecutive pair of FUN/QTY/SYS/... names must be able to straddle
+            # the power of ten), the extremes, and a seeded sample of the rest
+            small = max([k for k in delta.values() if k + 1 <= lim - 2] or [1])
+            keep = set(range(0, small + 1)) | {kmax}
+            rest = [t for t in offs if t not in keep]
+            keep |= set(rng.sample(rest, max(0, min(len(rest), lim - len(keep)))))
             offs = sorted(keep)
-        for bump in (0, 1) if name not in slow else (0,):
+        for bump in (0, 1) if (name not in slow and not light) else (0,):
             for st in boundary_counters(base_ids, delta, offs, bump):
                 tasks.append([name, st])
                 n_states += 1
-        # leading-digit states: the module's names against names minted EARLIER (the 243 registry symbols, 27 constants):
-        # their mutual lexicographic order depends on the leading digits of the counter, not only on digit-count boundaries
+        if light:
+            continue
+        # leading-digit classes: the module's names against names minted EARLIER (registry symbols, constants): one state per
+        # position of the new block among the earlier names the module mentions, plus seeded random leading digits
+        gs = gap_states(base_ids, delta, o.get("uses") or {}, 2 if name in slow else n_gap)
+        for st in gs:
+            tasks.append([name, st])
+            n_states += 1
+            n_gap_states += 1
         for _ in range(1 if name in slow else (10 if name in CORPUS else n_lead)):
             lead, e = rng.randrange(10, 100), rng.choice([2, 2, 3, 5])
             tasks.append([name, {p: lead * 10**e for p in delta}])
@@ -409,7 +464,7 @@ def run(ctx):
                 for d in compare(alone[name], o):
                     diffs.append(({"tag": f"states{k}", "kind": "module alone, counters pre-set", "counters": o.get("counters"),
                         "hashseed": seeds[k]}, name, *d, o))
-    ctx.coverage.update(boundary_modules=len(chosen), boundary_states_run=n_states, leading_digit_states_run=n_lead_states, boundary_observations_compared=compared_b,
+    ctx.coverage.update(boundary_modules=len(chosen), boundary_states_run=n_states, leading_digit_states_run=n_lead_states, gap_states_run=n_gap_states, modules_full=len(full), modules_prefix_sweep_only=len(light_only), boundary_observations_compared=compared_b,
         boundary_wall_s=round(time.time() - t0, 1), slow_modules_with_reduced_states=sorted(slow))
     representatives_tie(ctx, [o.get("ids", {}) for o in alone.values()])
 
